@@ -81,6 +81,8 @@ def parse_template(path):
                     nodes.append(("unit", arg))
                 elif name == "include":
                     nodes.append(("include", arg))
+                elif name == "autouse":
+                    nodes.append(("autouse", arg))
                 elif name == "extract":
                     cur_extract = (Directive("extract", arg, ln), [])
                     cur_dir = None
@@ -290,6 +292,7 @@ class Extractor:
         self.functions = []     # evidence: functions under contract
         self.dropped = []       # evidence: what extraction dropped
         self.assumed = []       # evidence: extracted functions whose body is left unverified
+        self.autouse = []       # broadcast groups brought into scope in every extracted function body and loop body (@autouse)
         self.force_degrade = set()   # labels whose body annotations must not be applied (set by the runner after a structural error inside them)
         self.degraded = []      # (label, reason): functions whose anchors are lost: contract kept (assumed), body NOT verified
 
@@ -385,10 +388,13 @@ class Extractor:
                 self.count("degraded-body")
                 if not any(l == label for l, _ in self.degraded):
                     self.degraded.append((label, "structural error inside the annotated body"))
+        seen_fns = []
+        fi_label = {}
         def set_fn(it, label):
             nonlocal cur, cur_label, cur_exclude
             cur = FnInfo(src, it)
             cur_label = label
+            seen_fns.append([cur, label, it])
             cur_exclude = []
             if it.body_open is not None:
                 for sub in rl.items_in(src, it.body_open + 1, it.body_close):
@@ -454,6 +460,8 @@ class Extractor:
                     if item.kind == "fn" and self.functions:
                         self.functions[-1]["label"] = d.arg
                         apply_degrade(item, d.arg)
+                        if cur is not None:
+                            fi_label[id(cur)] = d.arg
                 elif n == "fn":
                     key = ("fn", d.arg.strip())
                     if key not in members:
@@ -560,6 +568,25 @@ class Extractor:
                     raise
                 raise FnDegrade(cur_label, str(e))
 
+        for fi, label, it in seen_fns:
+            label = fi_label.get(id(fi), label)
+            if it.body_open is not None and label not in degrade:
+                self._auto_r12(fi, label, add)
+        # @autouse: the broadcast groups are brought into scope at the start of every verified function body and loop body
+        # (Verus does not carry a `broadcast use` of the function body into its loops)
+        if self.autouse:
+            use = "".join(" broadcast use %s; " % g for g in self.autouse)
+            unverified = set(e.tag[1] for e in edits if e.tag[0] == "ins" and len(e.tag) > 2 and e.tag[2] == "assume-body")
+            for fi, label, it in seen_fns:
+                label = fi_label.get(id(fi), label)
+                if it.body_open is None or label in degrade or label in unverified:
+                    continue
+                add(it.body_open + 1, it.body_open + 1, use, ("ins", label, "autouse", 0))
+                excl = [(sub.attr_start, sub.end) for sub in rl.items_in(src, it.body_open + 1, it.body_close) if sub.kind in ("fn", "enum", "struct", "const", "impl")]
+                for lp in fi.loops(src, excl):
+                    add(lp["open"] + 1, lp["open"] + 1, use, ("ins", label, "autouse", 0))
+            self.count("autouse-broadcast", 0)
+
         # apply edits; edits inside a dropped / hoisted range are discarded with it
         dels = [e for e in edits if e.tag[0] == "rule" and e.tag[1] in ("R0-drop-member", "R8-hoist", "degraded-body")]
         def swallowed(e, dl):
@@ -599,6 +626,39 @@ class Extractor:
         if back != src[lo:hi]:
             raise GenError("self-check failed for %s: erasure does not reproduce the source" % base_label)
         return pieces
+
+    def _auto_r12(self, fi, label, add):
+        """R12: `debug_assert_eq!(a, b[, msg..])` / `assert_eq!` / `.._ne!`  =>  `debug_assert!((a) == (b))` / `assert!(..)`
+        (same check, only the panic message differs; Verus has no model of assert_failed).  Applied to every extracted function."""
+        toks = fi.toks
+        n = 0
+        for q in range(fi.body_open_idx, fi.body_close_idx):
+            t = toks[q]
+            if t.kind == "ident" and t.text in ("debug_assert_eq", "assert_eq", "debug_assert_ne", "assert_ne") and toks[q + 1].text == "!" and toks[q + 2].text == "(":
+                o = q + 2
+                c = fi.br[o]
+                commas = []
+                j = o + 1
+                while j < c:
+                    tj = toks[j]
+                    if tj.kind == "punct" and tj.text in ("(", "[", "{"):
+                        j = fi.br[j] + 1; continue
+                    if tj.text == ",":
+                        commas.append(j)
+                    j += 1
+                if len(commas) < 1:
+                    continue
+                op = " == " if t.text.endswith("_eq") else " != "
+                add(t.start, t.end, t.text[:-3], ("rule", "R12-assert-eq", label, 0))
+                add(toks[o + 1].start, toks[o + 1].start, "(", ("rule-ins", "R12-assert-eq", label, 0))
+                add(toks[commas[0]].start, toks[commas[0]].end, ")" + op + "(", ("rule", "R12-assert-eq", label, 0))
+                if len(commas) > 1:
+                    add(toks[commas[1]].start, toks[c].start, ")", ("rule", "R12-assert-eq", label, 0))     # message arguments dropped
+                else:
+                    add(toks[c].start, toks[c].start, ")", ("rule-ins", "R12-assert-eq", label, 0))
+                n += 1
+        if n:
+            self.count("R12-assert-eq", n)
 
     @staticmethod
     def _label(sels):
@@ -713,37 +773,7 @@ class Extractor:
             self.count("R15-assert-macro", n)
             return
         if rule == "R12":
-            # `debug_assert_eq!(a, b)` / `assert_eq!(a, b)`  =>  `debug_assert!(a == b)` / `assert!(a == b)`
-            # (same check, only the panic message differs; Verus has no model of assert_failed)
-            toks = cur.toks
-            n = 0
-            for q in range(cur.body_open_idx, cur.body_close_idx):
-                t = toks[q]
-                if t.kind == "ident" and t.text in ("debug_assert_eq", "assert_eq", "debug_assert_ne", "assert_ne") and toks[q + 1].text == "!" and toks[q + 2].text == "(":
-                    o = q + 2
-                    c = cur.br[o]
-                    # top-level commas
-                    commas = []
-                    j = o + 1
-                    while j < c:
-                        tj = toks[j]
-                        if tj.kind == "punct" and tj.text in ("(", "[", "{"):
-                            j = cur.br[j] + 1; continue
-                        if tj.text == ",":
-                            commas.append(j)
-                        j += 1
-                    if len(commas) != 1:
-                        raise GenError("rule R12: %s with a message is not handled in %s" % (t.text, cur_label))
-                    op = " == " if t.text.endswith("_eq") else " != "
-                    add(t.start, t.end, t.text[:-3], ("rule", "R12-assert-eq", cur_label, d.line))
-                    add(toks[o + 1].start, toks[o + 1].start, "(", ("rule-ins", "R12-assert-eq", cur_label, d.line))
-                    add(toks[commas[0]].start, toks[commas[0]].end, ")" + op + "(", ("rule", "R12-assert-eq", cur_label, d.line))
-                    add(toks[c].start, toks[c].start, ")", ("rule-ins", "R12-assert-eq", cur_label, d.line))
-                    n += 1
-            if n == 0:
-                raise GenError("rule R12 no longer matches in %s" % cur_label)
-            self.count("R12-assert-eq", n)
-            return
+            return      # applied automatically to every extracted function (see _auto_r12); the directive is kept as documentation
         if rule == "R2c":
             # closure annotation: payload lines `SOURCE-CLOSURE := ANNOTATED-CLOSURE`; the annotated closure must end with
             # `{ BODY }` where BODY is textually the body of the source closure (only parameter types, a named result and
@@ -847,17 +877,21 @@ class Extractor:
             add(cur.body_close, cur.body_close, ";\n" + d.text() + "\n" + name + "\n", ("rule-ins", "R17-name-tail", cur_label, d.line))
             self.count("R17-name-tail")
             return
-        if rule == "R14":
+        if rule in ("R14", "R14?"):
             # `NAME.len()` on a `&str` local NAME  =>  `str_len(NAME)`: vstd gives `str::len` no usable postcondition and
             # forbids a second specification, so the call is redirected to an assumed wrapper with the same body
+            # `@rule R14 NAME [WRAPPER]`; `R14?` = apply where it occurs, no anchor (the source need not call NAME.len() at all)
             name = args[1]
+            wrapper = args[2] if len(args) > 2 else "str_len"
             toks = cur.toks
             n = 0
             for q in range(cur.body_open_idx, cur.body_close_idx - 4):
                 if (toks[q].kind == "ident" and toks[q].text == name and toks[q + 1].text == "." and toks[q + 2].text == "len"
                         and toks[q + 3].text == "(" and toks[q + 4].text == ")" and toks[q - 1].text != "."):
-                    add(toks[q].start, toks[q + 4].end, "str_len(%s)" % name, ("rule", "R14-str-len", cur_label, d.line))
+                    add(toks[q].start, toks[q + 4].end, "%s(%s)" % (wrapper, name), ("rule", "R14-str-len", cur_label, d.line))
                     n += 1
+            if n == 0 and rule == "R14?":
+                return
             if n == 0:
                 raise GenError("rule R14 no longer matches in %s" % cur_label)
             self.count("R14-str-len", n)
@@ -1036,6 +1070,9 @@ def generate(unit, canary=None, degrade=()):
     pieces = []
     for node in nodes:
         if node[0] == "unit":
+            continue
+        if node[0] == "autouse":
+            ex.autouse.append(node[1].strip())
             continue
         if node[0] == "free":
             pieces.append(Piece(node[1], ("tpl", unit + ".vc", node[2])))
